@@ -45,6 +45,7 @@ type Obligation struct {
 // Ctx collects the obligations of one property run.
 type Ctx struct {
 	only  string
+	onlyKeys []string
 	remap  string
 	P      *Program
 	Prop   string
@@ -86,9 +87,30 @@ func (c *Ctx) withOnly(orig, rule string, f func()) {
 	f()
 }
 
+// withOnlyKeys is withOnly restricted to obligations whose key contains one of the given substrings.
+func (c *Ctx) withOnlyKeys(orig, rule string, keys []string, f func()) {
+	if c.only != "" {
+		return
+	}
+	c.onlyKeys = keys
+	defer func() { c.onlyKeys = nil }()
+	c.withOnly(orig, rule, f)
+}
+
 func (c *Ctx) add(rule, key, pos string, st Status, detail string, trivial bool) *Obligation {
 	if c.only != "" && rule != c.only {
 		return &Obligation{}
+	}
+	if c.only != "" && len(c.onlyKeys) > 0 {
+		keep := false
+		for _, k := range c.onlyKeys {
+			if strings.Contains(key, k) {
+				keep = true
+			}
+		}
+		if !keep {
+			return &Obligation{}
+		}
 	}
 	if c.remap != "" {
 		rule = c.remap
